@@ -156,3 +156,23 @@ Definition sched_order_tol_ok (look : positive -> option Z) (ch : list rpol) (in
   end.
 
 Definition law_order_tol := per_sched sched_order_tol_ok.
+
+(* --- 112 / 113: bound and eligibility against the CONFIGURATION (every policy
+   entry of apply_defaults, whether or not the manager managed to initialise
+   it): a configured cap or filter that the running chain ignores fails here --- *)
+Definition law_bounded_config (specs : list sspec) (r : result) : bool :=
+  forallb (fun sp =>
+    forallb (fun p =>
+      negb (ps_name p =? P_LIMIT) || negb (0 <? arg_or (ps_args p) 4 0) ||
+      (Z.of_nat (length (rlookup r (ss_name sp))) <=? arg_or (ps_args p) 4 0))
+      (apply_defaults sp)) specs.
+
+Definition law_eligible_config (nodes : list node) (m : metrics) (specs : list sspec) (r : result) : bool :=
+  forallb (fun sp =>
+    forallb (fun p =>
+      negb (ps_name p =? P_ALLOC) ||
+      forallb (fun x => existsb (fun n => Pos.eqb (nname n) x &&
+                 alloc_filter (mlookup m) (round_util (arg_or (ps_args p) 1 0))
+                                          (round_util (arg_or (ps_args p) 2 0)) n) nodes)
+              (rlookup r (ss_name sp)))
+      (apply_defaults sp)) specs.
